@@ -558,6 +558,7 @@ CORE_CFGS = {
     "srca": (["A"], {"VP_CAP": "2", "VP_CTXPERSIST": "1", "VP_NKEYS": "2"}),
     "srcb": (["A"], {"VP_CAP": "2", "VP_CTXPERSIST": "1", "VP_NKEYS": "2"}),
     "fdev": (["A", "B"], {"VP_CAP": "2", "VP_CTXPERSIST": "1", "VP_SETUP": "loop2", "VP_NKEYS": "1"}),
+    "rearm": (["A", "B"], {"VP_CAP": "2", "VP_CTXPERSIST": "1", "VP_SETUP": "loop2", "VP_NKEYS": "1"}),
     "tb": (["A", "B"], {"VP_CAP": "2", "VP_CTXPERSIST": "1", "VP_SETUP": "loop2"}),
     "tbtmr": (["A", "B"], {"VP_CAP": "2", "VP_CTXPERSIST": "1", "VP_SETUP": "loop2"}),
     "btmo": (["A", "B"], {"VP_CAP": "2", "VP_CTXPERSIST": "1", "VP_SETUP": "loop2", "VP_MAXPAY": "2"}),
@@ -687,7 +688,7 @@ def c09(prop, tier, seed):
 
 @check("C03")
 def c03(prop, tier, seed):
-    return core_check(prop, tier, seed, ["fdev", "ps2q", "subos", "kev", "kevl", "tsk"], ["fdev", "ps2q", "subos", "kev", "kevl", "tsk", "ps3", "pub2"],
+    return core_check(prop, tier, seed, ["fdev", "ps2q", "subos", "kev", "kevl", "tsk", "rearm"], ["fdev", "ps2q", "subos", "kev", "kevl", "tsk", "rearm", "ps3", "pub2"],
                       "Focus: events of descriptor / timer / pubsub / signal / path / pid / task sources reach their owner with the registration userdata only while RUNNING; one-shot removal; poll batches of several sources in every order; errno left behind by callbacks; loop ends only on quit / no running module. "
                       "Configurations marked .loop are replayed a second time in loop mode: the loop is driven by blocking m_ctx_loop() calls (top-level steps executed from inside the wrapped epoll_wait, the stopping dispatch being what m_ctx_loop does before returning the quit code) and must show the same deliveries, states and return code.",
                       Dq=5, Dt=7, loop_cfgs=["ps2q", "fdev", "life"])
